@@ -216,6 +216,15 @@ def conveyor_line(etype="conveyor", acc=1, cap=3, slot=4, iat=(6, 6, 6), pd=(4,)
             "edges": [_e(etype, 0, 1, cap=cap, slot=slot, acc=acc), _e("buffer", 1, 2, cap=2)]}
 
 
+def conv_mid(etype="slotted", acc=1, cap=3, slot=2, iat=(1, 1, 1, 1, 1, 1, 1, 1), wc=1, pd=(1,), pd2=(5,), wc2=1, T=200):
+    """source -> buffer -> machine -> CONVEYOR -> slow machine -> buffer -> sink: items pile up at the exit of the belt,
+    the upstream machine is held back by the admission spacing"""
+    return {"Q": Q, "T": T, "family": "S-B-M-conv-M-B-K", "expect": "valid", "drains": True,
+            "nodes": [_n("source", blocking=True, iat=list(iat)), _n("machine", wc=wc, pd=list(pd)),
+                      _n("machine", wc=wc2, pd=list(pd2)), _n("sink")],
+            "edges": [_e("buffer", 0, 1, cap=2), _e(etype, 1, 2, cap=cap, slot=slot, acc=acc), _e("buffer", 2, 3, cap=2)]}
+
+
 def invalid_configs():
     out = []
     c = line_sbk(cap=0); c.update(expect="invalid", family="invalid:capacity0", why="non-positive capacity"); out.append(c)
@@ -348,6 +357,14 @@ def families(tier):
         C.append(conveyor_line(etype, acc, sink_direct=True))
         C.append(conveyor_line(etype, acc, iat=(1, 1, 1, 1, 1), pd=(12,)))
         C.append(conveyor_line(etype, acc, sb=False))
+    for etype, acc in itertools.product(["conveyor", "slotted"], [0, 1]):
+        C.append(conv_mid(etype, acc))
+        C.append(conv_mid(etype, acc, cap=2, slot=4, pd2=(3,), iat=(2,) * 8))
+        C.append(conv_mid(etype, acc, cap=4, slot=1, pd=(0,), pd2=(2, 6), iat=(0, 0, 0, 3, 0, 0, 5)))
+    C.append(conv_mid("slotted", 1, cap=3, slot=2, wc2=2, pd2=(7,), iat=(1,) * 10))
+    # two workers of one machine ask for space on the conveyor in the same instant
+    for etype, acc in itertools.product(["conveyor", "slotted"], [0, 1]):
+        C.append(conv_mid(etype, acc, wc=2, pd=(3,), iat=(0,) * 6))
     for count, pd, cap, iat, blocking, sblocking, wc, bdelay in [(3, (4,), 2, 4, True, True, 1, 0), (4, (2, 6, 3), 1, 2, True, True, 1, 0),
                                                                  (3, (5,), 1, 1, False, False, 2, 2), (2, (0,), 1, 1, True, False, 1, 4),
                                                                  (5, (3, 1), 2, 2, True, True, 2, 1)]:
